@@ -33,11 +33,11 @@ var Prop = &engine.Prop{
 		"the FIFO semaphore model (40 lines) is the specification of admission order",
 		"the Go race detector reports races only on executed interleavings",
 	},
-	ShardsQuick: 8, ShardsThorough: 16,
+	ShardsQuick: 8, ShardsThorough: 32,
 	Setup: func(c *engine.Ctx) { Q = engine.NewQuiescer() },
 	Kinds: []engine.Kind{
-		{Name: "sched", Quick: 12000, Thorough: 400000, Fn: schedCase},
-		{Name: "stress", Quick: 16, Thorough: 480, Repeat: 20, Fn: stressCase},
+		{Name: "sched", Quick: 12000, Thorough: 800000, Fn: schedCase},
+		{Name: "stress", Quick: 16, Thorough: 960, Repeat: 20, Fn: stressCase},
 	},
 	Floors: map[string]int64{
 		"queued_arrivals":      200,
